@@ -163,10 +163,12 @@ func (v *Vue) evaluate(ctx VueContext, nodes []*html.Node, depth int) ([]*html.N
 			if err := v.evalVText(ctx, newNode); err != nil {
 				return nil, err
 			}
-			if err := v.evalVShow(ctx, newNode); err != nil {
+			if _, err := v.evalAttributes(ctx, newNode); err != nil {
 				return nil, err
 			}
-			if _, err := v.evalAttributes(ctx, newNode); err != nil {
+			// v-show has the last word on display: it is applied to the style the
+			// bindings produced, so that :style="{display: ...}" cannot show a hidden element
+			if err := v.evalVShow(ctx, newNode); err != nil {
 				return nil, err
 			}
 
